@@ -53,7 +53,13 @@ impl Block {
             .map(|check| symbols.print_check(check))
             .collect();
 
-        let mut res = facts.join(";\n");
+        let mut res = String::new();
+        if !self.scopes.is_empty() {
+            res.push_str("trusting ");
+            res.push_str(&symbols.print_scopes(&self.scopes));
+            res.push_str(";\n");
+        }
+        res.push_str(&facts.join(";\n"));
         if !facts.is_empty() {
             res.push_str(";\n");
         }
